@@ -68,6 +68,15 @@ def key_pool(rng, bits):
         pool.append((k0, d1 ^ 1))                              # same data[0], other data[1]
         pool.append((k0, d1 ^ (1 << 63)))
         pool.append((k0 ^ (1 << 63), d1))                      # differs only in the top bit
+    # small-shaped legal signatures: (slot index, 0), (x, 0) with x below the table size, (0, y): the
+    # boundary of the proofs' `k <> (0,0)` (clear(key) leaves a zeroed key with a live seal and the
+    # old fitness in the slot)
+    for k0, _ in list(pool):
+        if k0 & mask:
+            pool.append((k0 & mask, 0))
+            pool.append((k0 & mask, 1))
+    pool.append((rng.randint(1, mask), 0))
+    pool.append((0, rng.randint(1, 3)))
     pool.append((0, rng.getrandbits(64) | 1))                  # data[0] == 0, not empty
     pool.append((rng.getrandbits(64) | 1, 0))                  # data[1] == 0, not empty
     pool.append((2 ** 64 - 1, 2 ** 64 - 1))
@@ -88,6 +97,7 @@ def fstr(f):
 
 def gen_table_script(rng, thorough):
     bits = rng.choice([1, 1, 2, 2, 3, 3, 4, 5, 6, 8, 10])
+    mask = (1 << bits) - 1
     pool = key_pool(rng, bits)
     hot = rng.sample(pool, min(len(pool), rng.randint(2, 6)))
     n = rng.randint(5, 220 if thorough else 70)
@@ -110,6 +120,13 @@ def gen_table_script(rng, thorough):
             ops.append("C")
         elif r < 0.90:
             ops.append("X,%s" % kstr(k))
+            if rng.random() < 0.6:
+                # every signature of the cleared slot must now find nothing: the small ones included
+                i = k[0] & mask
+                cands = [q for q in pool if (q[0] & mask) == i] + [(i, 0), (i, 1), (i | (mask + 1), 0)]
+                for q in rng.sample(cands, min(len(cands), 3)):
+                    if q != (0, 0):
+                        ops.append("F,%s" % kstr(q))
         elif r < 0.97:
             ops.append("S")
         else:
@@ -162,7 +179,8 @@ def gen_dss_script(rng, thorough):
         elif r < 0.28:
             ops.append("Q")
         else:
-            ops.append("E,%s" % kstr(rng.choice(hot)))
+            # consult the training AND the validation proxy
+            ops.append("%s,%s" % (rng.choice("EU"), kstr(rng.choice(hot))))
     return "D %d %d %d %d %s" % (bits, rng.randint(4, 40), gap, rng.randint(1, 10 ** 6), " ".join(ops))
 
 
@@ -186,7 +204,7 @@ def parse_op(tok):
     o = p[0]
     if o in ("I", "E"):
         return o, (int(p[1], 16), int(p[2], 16)), tuple(int(w, 16) for w in p[3:])
-    if o in ("F", "X") or (o == "E" and len(p) == 3):
+    if o in ("F", "X", "U") or (o == "E" and len(p) == 3):
         return o, (int(p[1], 16), int(p[2], 16)), None
     if o == "G":
         return o, int(p[1]), None
@@ -265,13 +283,15 @@ def oracle_dss(script, out):
     bad = []
     ti = 0
     for n, tok in enumerate(w[5:]):
-        if tok[0] == "E":
+        if tok[0] in "EU":
             got, direct = toks[ti][2:].split("|")
             ti += 1
             if got.split("/")[0] != direct:
-                bad.append(("proxy:not-transparent",
-                            "op %d: after the training set was changed by vita::dss, proxy(%s) returned %s while the "
-                            "wrapped evaluator called directly returns %s" % (n, tok[2:], got.split("/")[0], direct)))
+                side = "training" if tok[0] == "E" else "validation"
+                bad.append(("proxy:not-transparent" if tok[0] == "E" else "proxy:not-transparent:validation",
+                            "op %d: after the data sets were changed by vita::dss, the %s proxy(%s) returned %s while "
+                            "the wrapped evaluator called directly returns %s" %
+                            (n, side, tok[2:], got.split("/")[0], direct)))
         elif tok[0] == "G":
             ti += 1
     return bad
@@ -332,6 +352,14 @@ FIXED_SCRIPTS = [
     "T 2 I,1,5,3ff0000000000000 W,2 I,2,6,4000000000000000 C F,2,6 I,3,7,4008000000000000,4000000000000000 C F,3,7 F,1,5 I,1,5,4000000000000000 F,1,5 S F,1,5",
     # clear-one of a colliding key, find of the evicted key
     "T 1 I,1,5,3ff0000000000000 I,3,5,4000000000000000 F,1,5 F,3,5 X,1,5 F,3,5 F,1,5",
+    # clear(key) then lookups of the small signatures of that slot (seeded/C04-1) and of slot 0
+    "T 3 I,b,7,3ff0000000000000 X,b,7 F,3,0 F,3,1 F,b,0 F,b,7 I,13,0,4000000000000000 F,3,0 X,13,0 F,3,0 F,13,0",
+    "T 2 I,5,9,3ff0000000000000,4000000000000000 X,5,9 F,1,0 S F,1,0 I,1,0,4008000000000000 F,1,0 F,5,9 X,5,0 F,1,0",
+    # load must adopt the saved seal (seeded/C04-3)
+    "T 3 C C I,2,6,4000000000000000 S F,2,6 C F,2,6 I,2,6,3ff0000000000000 S F,2,6",
+    # both proxies around the real dss, consulted before and after shakes that fire (seeded/C04-2)
+    "D 7 30 1 77 E,1,5 U,1,5 G,1 E,1,5 U,1,5 G,2 U,1,5 E,1,5 U,2,9 G,3 U,2,9 U,1,5 Q U,1,5 E,1,5",
+    "D 7 12 2 5 U,3,3 E,3,3 G,1 U,3,3 G,2 U,3,3 E,3,3 G,3 G,4 U,3,3 E,3,3",
     "P 7 E,1,5,3ff0000000000000 E,1,5,3ff0000000000000 C E,1,5,4000000000000000 E,2,2 E,2,2 E,81,5,bff8000000000000 E,1,5,4000000000000000",
 ]
 
